@@ -432,6 +432,28 @@ func (eng *Engine) verifyFunc(fn *ssa.Function, fc *FuncContract) (res FuncResul
 		}
 		res.Obls[i] = or
 	})
+	// Unreachable returns. A return that the solver proves unreachable is usually error plumbing behind a callee whose
+	// contract excludes the error, so it is reported in the evidence but is not a failure; a function none of whose
+	// returns is reachable (and that is not declared to panic always) satisfies every postcondition vacuously: failure.
+	var reach, dead []int
+	for i, o := range res.Obls {
+		if strings.HasPrefix(o.Name, "vacuity.reach@") {
+			reach = append(reach, i)
+			if o.Status == "vacuous" {
+				dead = append(dead, i)
+			}
+		}
+	}
+	allDead := len(reach) > 0 && len(dead) == len(reach)
+	for k, i := range dead {
+		if allDead && k == 0 {
+			res.Obls[i].Text = "no return of the function is reachable under its contract: " + res.Obls[i].Text
+			continue
+		}
+		res.Obls[i].Status = "unsat"
+		res.Obls[i].Backend = "dead-return"
+		res.Warnings = append(res.Warnings, fmt.Sprintf("return at %s is unreachable under the contracts (%s)", res.Obls[i].Pos, res.Obls[i].Name))
+	}
 	return
 }
 
